@@ -58,6 +58,9 @@ type C06Case struct {
 	Plan    []Directive `json:"plan"`
 	Reopen  bool        `json:"reopen_cold,omitempty"` // after the initial versions continue on a fresh handle (cold node and fast-node caches)
 	Stress  bool        `json:"stress,omitempty"`
+	// Flush: write-batch flush threshold (0 = default): small values split one commit / deletion over several physical
+	// writes, so readers run between them
+	Flush int `json:"flush,omitempty"`
 	Pauses  []int       `json:"pauses,omitempty"`
 }
 
@@ -205,6 +208,9 @@ func runC06(c C06Case) (v *Violation, st c06Stats) {
 	tdb.OnCall = func(kind string) { s.event("db:" + kind) }
 	iavl.VerifYieldHook = func(point string) { s.event("yield:" + point) }
 	opts := []iavl.Option{iavl.AsyncPruningOption(c.Async)}
+	if c.Flush > 0 {
+		opts = append(opts, iavl.FlushThresholdOption(c.Flush))
+	}
 	tr := iavl.NewMutableTree(tdb, c.Cache, c.Skip, iavl.NewNopLogger(), opts...)
 	defer func() {
 		_ = tr.Close()
@@ -590,7 +596,8 @@ var c06Events = []string{"yield:SaveVersion:afterCommit", "yield:SaveVersion:aft
 
 func genC06(t *rapid.T, stress bool) C06Case {
 	c := C06Case{Prop: "C06", Cache: rapid.SampledFrom([]int{0, 0, 2, 1000}).Draw(t, "cache"), Skip: rapid.Bool().Draw(t, "skip"),
-		Async: rapid.IntRange(0, 3).Draw(t, "async") == 0, Stress: stress, Reopen: rapid.Bool().Draw(t, "reopenCold")}
+		Async: rapid.IntRange(0, 3).Draw(t, "async") == 0, Stress: stress, Reopen: rapid.Bool().Draw(t, "reopenCold"),
+		Flush: rapid.SampledFrom([]int{0, 0, 0, 150, 300, 1000}).Draw(t, "flush")}
 	work := map[string][]byte{}
 	genWrites := func(n int, dst *[]Op) {
 		for i := 0; i < n; i++ {
